@@ -1,1 +1,168 @@
-/-! Property theorems for C14 (statements + proofs by reference to `Proof/`). Not built yet. -/
+import GraafVerif.Proof.GenAL
+import GraafVerif.Proof.GenMX
+import GraafVerif.Proof.GenAM
+import GraafVerif.Proof.GenEL
+/-!
+# C14 — deterministic generators produce exactly their defining arc sets at every order
+
+Only statements and proofs by reference.  Models: `Model/Gen.lean` (every generator in every
+representation as coded, tied to the code by the correspondence run); definitions of the arc
+sets: `Spec/Gen.lean` (the property text); `Realises` / `FamilySpec`: `Spec/GenRealises.lean`.
+-/
+namespace GraafVerif.C14
+open GraafVerif.Repr GraafVerif.Gen GraafVerif.GenSpec
+
+/-- The generators of `AdjacencyList` when `available_parallelism()` returns `t`. -/
+def alFamily (t : Nat) : Family AdjList :=
+  { empty := AL.empty, complete := fun n => AL.complete n t, circuit := AL.circuit, cycle := AL.cycle,
+    path := AL.path, star := AL.star, wheel := AL.wheel, biclique := AL.biclique,
+    trivial := AL.trivial, claw := AL.claw, utility := AL.utility }
+def amFamily : Family AdjMap :=
+  { empty := AM.empty, complete := AM.complete, circuit := AM.circuit, cycle := AM.cycle,
+    path := AM.path, star := AM.star, wheel := AM.wheel, biclique := AM.biclique,
+    trivial := AM.trivial, claw := AM.claw, utility := AM.utility }
+def mxFamily : Family AdjMatrix :=
+  { empty := MX.empty, complete := MX.complete, circuit := MX.circuit, cycle := MX.cycle,
+    path := MX.path, star := MX.star, wheel := MX.wheel, biclique := MX.biclique,
+    trivial := MX.trivial, claw := MX.claw, utility := MX.utility }
+def elFamily : Family EdgeList :=
+  { empty := EL.empty, complete := EL.complete, circuit := EL.circuit, cycle := EL.cycle,
+    path := EL.path, star := EL.star, wheel := EL.wheel, biclique := EL.biclique,
+    trivial := EL.trivial, claw := EL.claw, utility := EL.utility }
+
+/-- the matrix allocates `order²` bits: `order * order` must fit a `usize` -/
+def mxFits (n : Nat) : Prop := n * n < 2 ^ 64
+
+/-- **Full statement of C14.**  For every number of worker threads `t ≥ 1`: in each of the four
+unweighted representations every generator realises its defining arc set at every admissible
+parameter and panics at inadmissible ones; the weighted list (which implements `Empty` only)
+likewise.  "All representations produce the same digraph" is `all_agree` below: two digraphs
+realising the same `(n, P)` have the same order, vertex set and arc set. -/
+def Statement : Prop :=
+  (∀ t, 1 ≤ t → FamilySpec AL.Realises (fun _ => True) (alFamily t)) ∧
+  FamilySpec AM.Realises (fun _ => True) amFamily ∧
+  FamilySpec MX.Realises mxFits mxFamily ∧
+  FamilySpec EL.Realises (fun _ => True) elFamily ∧
+  ((∀ n, 1 ≤ n → ∃ d, WL.empty n = some d ∧ WL.Realises d n (EmptyDef n)) ∧ WL.empty 0 = none ∧
+    ∃ d, WL.trivial = some d ∧ WL.Realises d 1 (EmptyDef 1))
+
+/-- AdjacencyList, every generator, **for every thread count `t ≥ 1`** (P0). -/
+theorem al_family_spec (t : Nat) (ht : 1 ≤ t) : FamilySpec AL.Realises (fun _ => True) (alFamily t) := by
+  refine ⟨fun n hn _ => AL.empty_spec hn, fun n hn _ => AL.complete_spec hn ht,
+    fun n hn _ => AL.circuit_spec hn, fun n hn _ => AL.cycle_spec hn, fun n hn _ => AL.path_spec hn,
+    fun n hn _ => AL.star_spec hn, fun n hn _ => AL.wheel_spec hn,
+    fun m n hm hn _ => AL.biclique_spec hm hn, AL.trivial_spec, AL.claw_spec, AL.utility_spec,
+    rfl, by simp [alFamily, AL.complete], rfl, rfl, rfl, rfl, ?_, ?_⟩
+  · intro n hn
+    have h : ¬ n ≥ 4 := by omega
+    simp [alFamily, AL.wheel, h]
+  · intro m n h
+    rcases h with h | h
+    · subst h; simp [alFamily, AL.biclique]
+    · subst h; by_cases hm : m = 0 <;> simp [alFamily, AL.biclique, hm]
+
+/-- The threaded `AdjacencyList::complete` equals its single-threaded definition for every
+thread count (**C17 piece**: `par t = seq`). -/
+theorem al_complete_thread_independent (n t : Nat) (ht : 1 ≤ t) : AL.complete n t = AL.completeSeq n :=
+  AL.complete_eq_seq n t ht
+
+/-- AdjacencyMatrix, every generator (`empty` + `add_arc` loops), for every order whose square
+fits a `usize` (P0). -/
+theorem mx_family_spec : FamilySpec MX.Realises mxFits mxFamily := by
+  refine ⟨fun n hn hf => MX.empty_realises hn hf, fun n hn hf => MX.complete_spec hn hf,
+    fun n hn hf => MX.circuit_spec hn hf, fun n hn hf => MX.cycle_spec hn hf,
+    fun n hn hf => MX.path_spec hn hf, fun n hn hf => MX.star_spec hn hf,
+    fun n hn hf => MX.wheel_spec hn hf, fun m n hm hn hf => MX.biclique_spec hm hn hf,
+    MX.trivial_realises (by intro u v h; exact h), MX.claw_spec, MX.utility_spec,
+    by decide, by decide, by decide, by decide, by decide, by decide, ?_, ?_⟩
+  · intro n hn
+    have h : ¬ n ≥ 4 := by omega
+    simp [mxFamily, MX.wheel, h]
+  · intro m n h
+    rcases h with h | h
+    · subst h; simp [mxFamily, MX.biclique]
+    · subst h; by_cases hm : m = 0 <;> simp [mxFamily, MX.biclique, hm]
+
+/-- AdjacencyMap, every generator; the result has vertex set `0..n` (P1). -/
+theorem am_family_spec : FamilySpec AM.Realises (fun _ => True) amFamily := by
+  refine ⟨fun n hn _ => AM.empty_spec hn, fun n hn _ => AM.complete_spec hn,
+    fun n hn _ => AM.circuit_spec hn, fun n hn _ => AM.cycle_spec hn, fun n hn _ => AM.path_spec hn,
+    fun n hn _ => AM.star_spec hn, fun n hn _ => AM.wheel_spec hn,
+    fun m n hm hn _ => AM.biclique_spec hm hn, AM.empty_spec (Nat.le_refl 1), AM.claw_spec, AM.utility_spec,
+    by decide, by decide, by decide, by decide, by decide, by decide, ?_, ?_⟩
+  · intro n hn
+    have h : ¬ n ≥ 4 := by omega
+    simp [amFamily, AM.wheel, h]
+  · intro m n h
+    rcases h with h | h
+    · subst h; simp [amFamily, AM.biclique]
+    · subst h; by_cases hm : m = 0 <;> simp [amFamily, AM.biclique, hm]
+
+/-- EdgeList, every generator (P1). -/
+theorem el_family_spec : FamilySpec EL.Realises (fun _ => True) elFamily := by
+  refine ⟨fun n hn _ => EL.empty_spec hn, fun n hn _ => EL.complete_spec hn,
+    fun n hn _ => EL.circuit_spec hn, fun n hn _ => EL.cycle_spec hn, fun n hn _ => EL.path_spec hn,
+    fun n hn _ => EL.star_spec hn, fun n hn _ => EL.wheel_spec hn,
+    fun m n hm hn _ => EL.biclique_spec hm hn, EL.empty_spec (Nat.le_refl 1), EL.claw_spec, EL.utility_spec,
+    by decide, by decide, by decide, by decide, by decide, by decide, ?_, ?_⟩
+  · intro n hn
+    have h : ¬ n ≥ 4 := by omega
+    simp [elFamily, EL.wheel, h]
+  · intro m n h
+    rcases h with h | h
+    · subst h; simp [elFamily, EL.biclique]
+    · subst h; by_cases hm : m = 0 <;> simp [elFamily, EL.biclique, hm]
+
+/-- The weighted adjacency list implements `Empty` only. -/
+theorem wl_empty_spec :
+    (∀ n, 1 ≤ n → ∃ d, WL.empty n = some d ∧ WL.Realises d n (EmptyDef n)) ∧ WL.empty 0 = none ∧
+    ∃ d, WL.trivial = some d ∧ WL.Realises d 1 (EmptyDef 1) :=
+  ⟨fun n hn => WL.empty_spec hn, by decide, WL.empty_spec (Nat.le_refl 1)⟩
+
+/-- **C14, full statement.** -/
+theorem statement_holds : Statement :=
+  ⟨al_family_spec, am_family_spec, mx_family_spec, el_family_spec, wl_empty_spec⟩
+
+/-- "All representations produce the same digraph", as a corollary of the common definition:
+whatever realises the same `(n, P)` — in whichever representations — has the same order, the
+same vertex list and the same arcs. -/
+theorem all_agree {n : Nat} {P : Nat → Nat → Prop} {d₁ : AdjList} {d₂ : AdjMap} {d₃ : AdjMatrix} {d₄ : EdgeList}
+    (h₁ : AL.Realises d₁ n P) (h₂ : AM.Realises d₂ n P) (h₃ : MX.Realises d₃ n P) (h₄ : EL.Realises d₄ n P) :
+    (d₁.order = n ∧ d₂.order = n ∧ d₃.order = n ∧ d₄.order = n) ∧
+    (d₁.vertices = List.range n ∧ d₂.vertices = List.range n ∧ d₃.vertices = List.range n ∧
+      d₄.vertices = List.range n) ∧
+    ∀ u v, ((u, v) ∈ d₁.arcs ↔ P u v) ∧ ((u, v) ∈ d₂.arcs ↔ P u v) ∧ ((u, v) ∈ d₃.arcs ↔ P u v) ∧
+      ((u, v) ∈ d₄.arcs ↔ P u v) :=
+  ⟨⟨h₁.2.1, h₂.2.1, h₃.2.1, h₄.2.1⟩,
+   ⟨by simp [AdjList.vertices, h₁.2.1], h₂.2.2.1, by simp [AdjMatrix.vertices, h₃.2.1],
+    by simp [EdgeList.vertices, h₄.2.1]⟩,
+   fun u v => ⟨h₁.2.2 u v, h₂.2.2.2 u v, h₃.2.2 u v, h₄.2.2 u v⟩⟩
+
+/-- … instantiated: for every order and thread count the four `complete(n)` are the same digraph. -/
+theorem complete_agree (n t : Nat) (hn : 1 ≤ n) (ht : 1 ≤ t) (hf : mxFits n) :
+    ∃ d₁ d₂ d₃ d₄, AL.complete n t = some d₁ ∧ AM.complete n = some d₂ ∧ MX.complete n = some d₃ ∧
+      EL.complete n = some d₄ ∧
+      ∀ u v, ((u, v) ∈ d₁.arcs ↔ (u, v) ∈ d₂.arcs) ∧ ((u, v) ∈ d₂.arcs ↔ (u, v) ∈ d₃.arcs) ∧
+        ((u, v) ∈ d₃.arcs ↔ (u, v) ∈ d₄.arcs) := by
+  obtain ⟨d₁, e₁, r₁⟩ := AL.complete_spec hn ht
+  obtain ⟨d₂, e₂, r₂⟩ := AM.complete_spec hn
+  obtain ⟨d₃, e₃, r₃⟩ := MX.complete_spec hn hf
+  obtain ⟨d₄, e₄, r₄⟩ := EL.complete_spec hn
+  refine ⟨d₁, d₂, d₃, d₄, e₁, e₂, e₃, e₄, fun u v => ?_⟩
+  have := (all_agree r₁ r₂ r₃ r₄).2.2 u v
+  exact ⟨by rw [this.1, this.2.1], by rw [this.2.1, this.2.2.1], by rw [this.2.2.1, this.2.2.2]⟩
+
+/-! ## Non-vacuity: concrete instances meet the hypotheses and show non-trivial digraphs -/
+
+example : (AL.complete 5 3).map (·.arcs.length) = some 20 := by decide
+example : AL.complete 7 3 = AL.complete 7 16 := by decide
+example : (AL.wheel 5).map (·.arcs) =
+    some [(0,1),(0,2),(0,3),(0,4),(1,0),(1,2),(1,4),(2,0),(2,1),(2,3),(3,0),(3,2),(3,4),(4,0),(4,1),(4,3)] := by decide
+example : (MX.circuit 3).map (·.arcs) = some [(0,1),(1,2),(2,0)] := by decide
+example : (AM.star 4).map (·.arcs) = some [(0,1),(0,2),(0,3),(1,0),(2,0),(3,0)] := by decide
+example : (EL.cycle 2).map (·.arcs) = some [(0,1),(1,0)] := by decide
+example : mxFits 200 := by unfold mxFits; decide
+example : WheelDef 5 4 1 := by decide
+example : BicliqueDef 2 3 4 1 := by decide
+
+end GraafVerif.C14
